@@ -42,9 +42,11 @@ func expectedStatus(ret Ret) *spb.Status {
 		return &spb.Status{Code: int32(codes.Canceled), Message: "context canceled"}
 	case "deadline":
 		return &spb.Status{Code: int32(codes.DeadlineExceeded), Message: "context deadline exceeded"}
+	case "status-over-ctx":
+		return &spb.Status{Code: int32(ret.Code), Message: ret.Msg}
 	}
 	return nil
-}
+	}
 
 func genRet(r *rand.Rand) Ret {
 	switch r.Intn(10) {
@@ -52,6 +54,11 @@ func genRet(r *rand.Rand) Ret {
 		return Ret{How: "plain", Msg: pick(r, "plain failure", "", "boom: 42", "ünï", "a\tb")}
 	case 1:
 		return Ret{How: pick(r, "eof", "ueof", "canceled", "deadline")}
+	case 2:
+		if r.Intn(3) == 0 {
+			// a status of its own ("Unavailable: backend timed out") on top of a context error as its cause
+			return Ret{How: "status-over-ctx", Code: uint32(pick(r, codes.Unavailable, codes.Aborted, codes.ResourceExhausted)), Msg: "backend timed out"}
+		}
 	}
 	ret := Ret{How: "status", Code: statusCodes[r.Intn(len(statusCodes))]}
 	switch r.Intn(12) {
